@@ -3,10 +3,12 @@
 pub mod c01;
 pub mod c02;
 pub mod c03;
+pub mod c05;
+pub mod c10;
 
 use crate::engine::Cfg;
 
-pub const SCENARIOS: &[&str] = &["c01", "c02a", "c02b", "c03"];
+pub const SCENARIOS: &[&str] = &["c01", "c02a", "c02b", "c03", "c05", "c10s", "c10f"];
 
 pub fn run(name: &str, seed: u64, ov: impl FnMut(&mut Cfg)) -> ! {
     match name {
@@ -14,6 +16,9 @@ pub fn run(name: &str, seed: u64, ov: impl FnMut(&mut Cfg)) -> ! {
         "c02a" => c02::run_a(seed, ov),
         "c02b" => c02::run_b(seed, ov),
         "c03" => c03::run(seed, ov),
+        "c05" => c05::run(seed, ov),
+        "c10s" => c10::run_sem(seed, ov),
+        "c10f" => c10::run_flag(seed, ov),
         _ => {
             eprintln!("unknown scenario {}", name);
             std::process::exit(2);
